@@ -1,1 +1,57 @@
-From Verif Require Import Base Tie.
+(* C15 -- response handling (Model/Design.v with tc_response = true; Model/Algebra.v mk_response). *)
+From Verif Require Import Base Tokens Algebra Contrasts Frame Eval Design DesignCoding ResponseProofs.
+From Verif Require Tie.
+Local Close Scope Qc_scope.
+Local Close Scope Q_scope.
+
+Theorem C15_response_numeric_id :
+  forall cx data name isint xs nrows,
+    assoc name data = Some (ColNum isint xs) ->
+    exists dt, eval_response cx data [CVar (NStr name) None] nrows = Ok dt /\
+               dt_rows dt = map (fun x => [x]) xs /\ dt_labels dt = Some [name] /\
+               dt_kind dt = "numeric"%string /\ dt_name dt = name.
+Proof. exact response_numeric_id. Qed.
+
+(* one indicator column per level, levels sorted (declared order: response_categorical_indicators) *)
+Theorem C15_response_indicators :
+  forall cx data name vs nrows,
+    assoc name data = Some (ColStr None vs) -> no_missing vs = true ->
+    exists dt, eval_response cx data [CVar (NStr name) None] nrows = Ok dt /\
+               dt_rows dt = map (fun ox => map (oind ox) (sorted_unique_str (present vs))) vs /\
+               dt_labels dt = Some (map (level_label name) (sorted_unique_str (present vs))).
+Proof. exact response_categorical_sorted. Qed.
+
+Theorem C15_response_level_binary :
+  forall cx data name o vs ref nrows,
+    assoc name data = Some (ColStr o vs) -> no_missing vs = true ->
+    exists dt, eval_response cx data [CVar (NStr name) (Some ref)] nrows = Ok dt /\
+               dt_rows dt = map (fun ox => [oind ox ref]) vs /\
+               dt_labels dt = Some [level_label name ref] /\ dt_kind dt = "categoric"%string.
+Proof. exact response_level_binary. Qed.
+
+Theorem C15_response_single_term :
+  forall v r, mk_response v = Ok r <-> (exists c, v = VT [c] /\ r = VR [c]).
+Proof. exact response_single_term. Qed.
+
+Theorem C15_no_response :
+  forall e m, tilde_free e = true -> describe e = Ok m -> resp m = None.
+Proof. exact no_response. Qed.
+
+Theorem C15_prop_validates :
+  forall cx name i j ss ts sl tl,
+    In name ["p"%string; "prop"%string; "proportion"%string] ->
+    all_some ss = Some sl -> all_some ts = Some tl ->
+    call_function cx name [PSeries i ss; PSeries j ts] [] =
+    (if prop_ok sl tl then Ok (PProp ss ts None) else Err EValue).
+Proof. exact prop_spec. Qed.
+
+Theorem C15_prop_two_columns :
+  forall t nrows ss ts ct,
+    tc_kind t = KProportion -> tc_response t = true -> tc_value t = PProp ss ts ct ->
+    exists dc, set_data_comp t true nrows = Ok dc /\
+               dc_rows dc = zip_with (fun a b => [a; b]) ss ts /\ dc_labels dc = None.
+Proof. exact response_prop. Qed.
+
+Print Assumptions C15_response_indicators.
+Print Assumptions C15_response_single_term.
+Print Assumptions C15_no_response.
